@@ -30,9 +30,28 @@ Proof. exact parse_spec. Qed.
 Theorem C20_parse_is_u8 : forall s v, parse s = Some v -> u8_version v.
 Proof. exact parse_is_u8. Qed.
 
+From Peppi Require Import Gen.VersionTextSrc Proofs.VersionTextLayout.
+(* ---- Display / FromStr of both Version types and parse_u8, regenerated (Gen/VersionTextSrc.v): format string pieces and argument
+   order, split character, number of next() calls and the accepting pattern, constructor order, the integer type parse_u8 parses to
+   (taken from its signature) *)
+Theorem C20_show_from_source : forall v, show v = show_tbl slippi_version_display v /\ show v = show_tbl peppi_version_display v.
+Proof. exact (fun v => conj (show_from_source_slippi v) (show_from_source_peppi v)). Qed.
+Theorem C20_parse_from_source : forall s,
+  parse s = parse_tbl slippi_version_split_char slippi_version_next_calls slippi_version_accept slippi_version_ctor s /\
+  parse s = parse_tbl peppi_version_split_char peppi_version_next_calls peppi_version_accept peppi_version_ctor s.
+Proof. exact (fun s => conj (parse_from_source_slippi s) (parse_from_source_peppi s)). Qed.
+Theorem C20_parse_u8_from_source : forall s, parse_u8 s = parse_uint parse_u8_target_bits parse_u8_target_signed s.
+Proof. exact parse_u8_from_source. Qed.
+Theorem C20_parse_u8_is_u8 : parse_u8_target_bits = 8 /\ parse_u8_target_signed = false.
+Proof. split; reflexivity. Qed.
+
 Print Assumptions C20_gte_lex.
 Print Assumptions C20_lt_is_negation.
 Print Assumptions C20_gate_monotone.
 Print Assumptions C20_parse_show.
 Print Assumptions C20_parse_spec.
 Print Assumptions C20_parse_is_u8.
+Print Assumptions C20_show_from_source.
+Print Assumptions C20_parse_from_source.
+Print Assumptions C20_parse_u8_from_source.
+Print Assumptions C20_parse_u8_is_u8.
